@@ -21,7 +21,8 @@ from .c06 import ast_expr, arc, EK
 T, F = z3.BoolVal(True), z3.BoolVal(False)
 TY = 'validator::types::Type'
 BT = 'validator::types::BoolType'
-KINDS = ['Never', 'True', 'False', 'Bool', 'Long', 'String', 'Set', 'Entity', 'Record', 'ExtCmp', 'ExtOther']
+KINDS = ['Never', 'True', 'False', 'Bool', 'Long', 'String', 'Set', 'Entity', 'Record', 'ExtCmp', 'ExtOther', 'SetEnt']
+BASE_KINDS = KINDS[:-1]          # SetEnt (a set of entities) is only offered to the `in` node
 FILE = 'validator/typecheck.rs'
 
 
@@ -36,6 +37,8 @@ def mk_type(kind, names):
         return Agg('variant', TY, kind, [])
     if kind == 'Set':
         return Agg('variant', TY, 'Set', [some(arc(Agg('variant', TY, 'Long', [])))], ('element_type',))
+    if kind == 'SetEnt':
+        return Agg('variant', TY, 'Set', [some(arc(mk_type('Entity', names)))], ('element_type',))
     if kind == 'Entity':
         return Agg('variant', TY, 'Entity', [Agg('variant', 'validator::types::EntityKind', 'Entity', [Opaque('validator::types::EntityLUB', 'some entity type(s)')])])
     if kind == 'Record':
@@ -78,8 +81,6 @@ def operator_node(ctx, label, fname, build, nkids, safe, result_kind):
     kids = [Opaque('ast::expr::Expr', f'child{i}') for i in range(nkids)]
     this = ast_expr(build([arc(k) for k in kids]))
     from .c06 import strip as strip6
-    for combo in itertools.product(KINDS, repeat=nkids):
-        pass
     # one run per combination of child kinds would be 121 runs for binary operators: instead the kind of each child is chosen by a symbolic integer and the stub forks
     ex = ctx.new_exec('core')
     ex.havoc_unknown = True
@@ -88,7 +89,7 @@ def operator_node(ctx, label, fname, build, nkids, safe, result_kind):
     K = [z3.Int(f'kind_of_child{i}') for i in range(nkids)]
     OKC = [z3.Bool(f'child{i}_typechecks') for i in range(nkids)]
     STRICT, SEQ = z3.Bool('strict_mode'), z3.Bool('strict_equality_accepts')
-    pre = [z3.And(k >= 0, k < len(KINDS)) for k in K]
+    pre = [z3.And(k >= 0, k < len(BASE_KINDS)) for k in K]
     typed = [[Agg('struct', '~typed', None, [some(mk_type(kn, names)), Opaque('child', f'typed child{i}')]) for kn in KINDS] for i in range(nkids)]
     kidx = {k.id: i for i, k in enumerate(kids)}
     gid = lambda ex_, st, v: getattr(strip(ex_, st, v), 'id', None)
@@ -180,7 +181,7 @@ def operator_node(ctx, label, fname, build, nkids, safe, result_kind):
         # the kinds of the children on this path are fixed by the path condition for every child that was visited
         visited = o.st.notes.get('visited', [])
         kind_terms = []
-        for combo in itertools.product(range(len(KINDS)), repeat=nkids):
+        for combo in itertools.product(range(len(BASE_KINDS)), repeat=nkids):
             kind_terms.append((combo, z3.And([K[i] == combo[i] for i in range(nkids)])))
         if v.variant == 'TypecheckSuccess':
             te = strip(ex, o.st, v.fields[0])
@@ -370,7 +371,7 @@ def run(ctx):
     ctx.guarded('native battery', lambda: battery(ctx, 'native battery', 'strict validation vs evaluation on operator applications', 'native validate-then-evaluate battery'))
     ctx.bounds += ['operators: !, unary -, isEmpty, <, <=, +, binary -, *, contains, containsAll, containsAny; each operand accepted or rejected by its own typecheck with a type of one of the kinds ' + ', '.join(KINDS)
                    + ' (sets are Set<Long>; entity / record types are opaque; two extension types, one with comparison operators); strict and permissive mode',
-                   'attribute access, has, like, is, ==, hasTag, getTag: the operand(s) as above; what the schema says is free (attribute undeclared or declared with a type of five kinds, required or optional; may_have_attr; tag types empty or not and their '
+                   'attribute access, has, like, is, in (right operand also a set of entities), ==, hasTag, getTag: the operand(s) as above; what the schema says is free (attribute undeclared or declared with a type of five kinds, required or optional; may_have_attr; tag types empty or not and their '
                    'least upper bound; entity-type membership and disjointness); the capability of the access is a prior fact or not; operands of == are literals or not, equal or not',
                    'short-circuiting nodes &&, ||, if: every child accepted or rejected with a type of one of these kinds (branches of `if`: Never, True, Bool, Long; thorough: all) and an arbitrary capability set, '
                    'arbitrary prior capability; capability sets pointwise (one arbitrary `has` fact); the least upper bound of the branch types exists or not (free)',
@@ -381,7 +382,7 @@ def run(ctx):
                         'Type::is_subtype, expect_type, TypecheckAnswer::then_typecheck / map_capability and the decision code are executed from the MIR; the typed-expression builder keeps the annotation it is given; '
                         'enforce_strict_equality is a kind-level stub (types of different kinds are rejected, within a kind either answer); CapabilitySet::{new,union,intersect} are the pointwise set operations; '
                         'least_upper_bound_or_error answers freely',
-                        'NOT decided - most of C03: `in`, record and set literals, extension calls, Type::least_upper_bound, the schema lookups (free answers here), request environments, and the composition into whole-policy soundness']
-    return ctx.finish('Solver-decided typing rules of 21 expression node kinds (eleven operators, &&, ||, if, attribute access, has, like, is, ==, hasTag, getTag), typecheck / typecheck_unary / typecheck_binary executed from the MIR: a node is accepted only if every operand that '
+                        'NOT decided - most of C03: the action-hierarchy routes of `in` (type_of_action_in_*), whether an entity type can be a descendant of another (free answer), record and set literals, extension calls, Type::least_upper_bound, the schema lookups (free answers here), request environments, and the composition into whole-policy soundness']
+    return ctx.finish('Solver-decided typing rules of 22 expression node kinds (eleven operators, &&, ||, if, attribute access, has, like, is, in, ==, hasTag, getTag) and of the fold over request environments, typecheck / typecheck_unary / typecheck_binary executed from the MIR: a node is accepted only if every operand that '
                       'can be evaluated was accepted with a type on which the evaluator raises no type error, children are typechecked only under `has` facts that hold when they are evaluated, the facts passed on hold when the node is true, '
                       'the node gets a type containing its values, a rejection with accepted operands is reported, and well-typed operands are accepted. A narrow slice of strict-validation soundness.')
